@@ -240,8 +240,12 @@ class _G:
             keys = self.draw(st.lists(st.sampled_from(["x", "y", 1, None, 0]), min_size=n, max_size=n, unique_by=lambda v: (type(v).__name__, v)))
             return {"k": "dict", "items": [[kk, self.node(d)] for kk in keys]}
         if k == "fapp":
-            return {"k": "fapp", "args": [self.node(d, lazy_ok=self.p["lazy_root"]) for _ in range(self.draw(st.integers(0, 2)))],
+            node = {"k": "fapp", "args": [self.node(d, lazy_ok=self.p["lazy_root"]) for _ in range(self.draw(st.integers(0, 2)))],
                     "kwargs": {nm: self.node(d) for nm in self.draw(st.lists(st.sampled_from(["u", "v"]), max_size=2, unique=True))}}
+            if not self.p.get("picklable") and self.chance(0.3):
+                # the applied function is itself computed from the options (its options belong to the application)
+                node["fn"] = self.opt(hashable=True) if self.chance(0.7) else self.node(1, hashable=True)
+            return node
         if k == "tmpl":
             return self.tmpl(depth)
         if k == "map" and self.chance(0.35):
